@@ -76,6 +76,12 @@ RECURSIVE DictIdx(_, _, _)
 DictIdx(dct, k, i) == IF i > Len(dct) THEN 0 ELSE IF dct[i][1] = k THEN i ELSE DictIdx(dct, k, i + 1)
 DictSet(dct, k, v) == LET i == DictIdx(dct, k, 1) IN
                       IF i = 0 THEN Append(dct, <<k, v>>) ELSE [dct EXCEPT ![i] = <<k, v>>]
+\* Metadata is a mapping: which key of a comment line is entered first (the dict's iteration order, and with it the order of
+\* the "# ::key" lines written later) is stated by no property and no document; judges compare metadata as sets of entries.
+MetaMap(m) == {<<m[i][1], m[i][2]>> : i \in DOMAIN m}
+SameMeta(a, b) == Len(a) = Len(b) /\ MetaMap(a) = MetaMap(b)
+SameTree(a, b) == a.top = b.top /\ a.br = b.br /\ SameMeta(a.meta, b.meta)
+SameTrees(a, b) == Len(a) = Len(b) /\ \A i \in DOMAIN a : SameTree(a[i], b[i])
 \* one comment text, scanned for "::" from the right, as the documentation of the metadata format implies
 \* (a value extends to the next "::" or the end of the line, trailing white space removed)
 RECURSIVE MetaOfComment(_, _)
